@@ -12,6 +12,8 @@ from synth.filter.filter import Filter
 from lib import objs as O
 from lib import gramwire as G
 from props.c01_impl import build_dsl
+from synth.syntax.grammars.u_cfg import UCFG
+from synth.syntax.grammars.tagged_u_grammar import ProbUGrammar
 
 
 def build_grammar(g):
@@ -22,7 +24,38 @@ def build_grammar(g):
                                     {O.ty(t) for t in g.get("const_types", [])})
     if g["kind"] == "size":
         return TTCFG.size_constraint(dsl, treq, g["max_size"], g.get("n_gram", 2))
+    if g["kind"] in ("ucfg", "udfta"):
+        cfg = CFG.depth_constraint(dsl, treq, g["max_depth"], g.get("min_var", 1), g.get("n_gram", 2), False, set())
+        if g["kind"] == "ucfg":
+            return UCFG.from_CFG(cfg, True)
+        from synth.filter.constraints.dfta_constraints import add_dfta_constraints
+        dfta = add_dfta_constraints(cfg, g["constraints"], progress=False)
+        if g.get("u_ngram", 0) > 0:
+            return UCFG.from_DFTA_with_ngrams(dfta, g["u_ngram"])
+        return UCFG.from_DFTA(dfta)
     raise ValueError(g["kind"])
+
+
+def draw_weight(rng, kind):
+    if kind == "uniform":
+        return 1.0
+    if kind == "random":
+        return rng.random() + 0.01
+    if kind == "skewed":
+        return 10.0 ** (-rng.randint(0, 6))
+    if kind == "ties":
+        return float(rng.choice([1, 1, 2, 4]))
+    raise ValueError(kind)
+
+
+def make_u_weights(ug, w):
+    rng = random.Random(w["seed"])
+    tags = {S: {P: {tuple(alt): draw_weight(rng, w["kind"]) for alt in der} for P, der in ug.rules[S].items()}
+            for S in ug.rules}
+    starts = {S: draw_weight(rng, w["kind"]) for S in ug.starts}
+    pg = ProbUGrammar(ug, tags, starts)
+    pg.normalise()
+    return pg
 
 
 def make_weights(grammar, w):
@@ -48,6 +81,11 @@ def make_weights(grammar, w):
     return pg
 
 
+U_ENUMS = {
+    "hs_u": lambda pg, p: E.hs_enumerate_prob_u_grammar(pg),
+    "hs_bucket_u": lambda pg, p: E.hs_enumerate_bucket_prob_u_grammar(pg, p.get("bucket_size", 3)),
+}
+
 ENUMS = {
     "hs": lambda pg, p: E.hs_enumerate_prob_grammar(pg),
     "hs_bucket": lambda pg, p: E.hs_enumerate_bucket_prob_grammar(pg, p.get("bucket_size", 3)),
@@ -66,15 +104,21 @@ class SetRejectFilter(Filter):
 
 
 def impl(case):
+    is_u = case["enum"] in U_ENUMS
     try:
         grammar = build_grammar(case["grammar"])
     except KeyError:
         return {"skip": True, "why": "empty language (C01 known finding)"}
-    if grammar.start not in grammar.rules:
+    if is_u:
+        if not grammar.starts or any(S not in grammar.rules for S in grammar.starts):
+            return {"skip": True, "why": "empty language"}
+    elif grammar.start not in grammar.rules:
         return {"skip": True, "why": "empty language"}
     n = grammar.programs()
     if n <= 0 or n > case.get("max_lang", 1500):
         return {"skip": True, "why": "language size %d outside [1, max_lang]" % n}
+    if is_u:
+        return impl_u(case, grammar)
     pg = make_weights(grammar, case["weights"])
     en = ENUMS[case["enum"]](pg, case.get("params", {}))
     if case.get("rejected") is not None:
@@ -110,3 +154,44 @@ def impl(case):
     if case["enum"] in ("bs", "cd"):
         res["costs"] = G.enc_weights(en.G.probabilities, conv=lambda c: [int(c), 1])
     return res
+
+
+def run_enum(en, case):
+    merges = {m[0]: (O.prog(m[1]), O.prog(m[2])) for m in case.get("merges", [])}
+    limit = case.get("limit", 20000)
+    out = []
+    ended = "stop"
+    it = iter(en)
+    applied = []
+    while True:
+        if len(out) in merges and len(out) not in applied:
+            rep, other = merges[len(out)]
+            en.merge_program(rep, other)
+            applied.append(len(out))
+        try:
+            p = next(it)
+        except StopIteration:
+            break
+        except BaseException as e:
+            if type(e).__name__ == "CaseTimeout":
+                ended = "timeout"
+                break
+            raise
+        out.append(O.prog_wire(p))
+        if len(out) >= limit:
+            ended = "limit"
+            break
+    return out, ended
+
+
+def impl_u(case, ug):
+    from props import c04_impl as C4
+    pg = make_u_weights(ug, case["weights"])
+    en = U_ENUMS[case["enum"]](pg, case.get("params", {}))
+    if case.get("rejected") is not None:
+        en.filter = SetRejectFilter({O.prog(w) for w in case["rejected"]})
+    out, ended = run_enum(en, case)
+    return {"utable": C4.u_table(ug), "starts": sorted([C4.u_nt(S) for S in ug.starts], key=repr),
+            "uweights": C4.u_weights(pg.tags),
+            "sweights": [[C4.u_nt(S), C4.qwire(q)] for S, q in pg.start_tags.items()],
+            "out": out, "ended": ended}
